@@ -813,7 +813,8 @@ def _bookkeeping_len(E, v):
 LIB.len_handlers.insert(0, _bookkeeping_len)
 
 
-def vec_task(name, qual, kinds, build, stubs, cut_loops, post, mode="NEXT_STEP", force_cut=(), setup_extra=None, allow_raise=None):
+def vec_task(name, qual, kinds, build, stubs, cut_loops, post, mode="NEXT_STEP", force_cut=(), setup_extra=None, allow_raise=None,
+             n_envs=None, wrapped=None, bounded=None):
     def setup(shared):
         cfg = Cfg("a2c", name, False, counter=None, ret=None, episodes=False)
         cfg.store_need = {"observation", "action", "reward"}
@@ -834,8 +835,8 @@ def vec_task(name, qual, kinds, build, stubs, cut_loops, post, mode="NEXT_STEP",
             setup_extra(shared)
 
     def harness(E):
-        wrapped = E.branch(E.bool("envs.records_episode_statistics"))
-        env = mk_vec_env(E, "env", mode=mode, wrapped=wrapped)
+        wr = E.branch(E.bool("envs.records_episode_statistics")) if wrapped is None else wrapped
+        env = mk_vec_env(E, "env", mode=mode, wrapped=wr, n_envs=n_envs)
         args = build(E, env)
         E.st.ghost["args"] = args
         ck = E.shared.checker
@@ -849,7 +850,7 @@ def vec_task(name, qual, kinds, build, stubs, cut_loops, post, mode="NEXT_STEP",
             E.oblige("canary.c01.cur_is_initial", C.compare("==", env.fields["$nsteps"], env.fields["$n0"]), assume_after=False)
         E.cover("end")
 
-    return Task(name, harness, setup=setup, allow_raise=allow_raise)
+    return Task(name, harness, setup=setup, allow_raise=allow_raise, bounded=bounded)
 
 
 def a2c_collect_build(E, env):
@@ -930,6 +931,20 @@ def ppo_setup(shared):
     shared.observers.append(rows_observer)
 
 
+def stub_logger(E):
+    lg = Obj(L.STUB_LOGGER, {}, name="logger")
+    E.register(lg)
+    return lg
+
+
+def with_logger(build):
+    def b(E, env):
+        args = build(E, env)
+        args["logger"] = stub_logger(E)
+        return args
+    return b
+
+
 def ppo_collect_build(E, env):
     E.assume(B(env.fields["$started"]))
     for role in PPO_ROLES:
@@ -985,6 +1000,16 @@ def vec_tasks(kinds):
                         cuts[:1], ppo_collect_post, mode="SAME_STEP", setup_extra=ppo_setup))
     out.append(vec_task("train_ppo[SAME_STEP autoreset]", PPO + "train_ppo", kinds, ppo_train_build, PPO_STUBS,
                         cuts, ppo_train_post, mode="SAME_STEP", setup_extra=ppo_setup))
+    # with a logger and episode statistics in `info`: the routine patches `obs` with the final observation of every
+    # finished sub-environment for the critic's bootstrap value - only there: the stored rows and the actor must see the
+    # observation the environment returned (the reset observation).  The python zip / comprehension over sub-environments
+    # needs a concrete environment count.
+    if "C01" in kinds:
+        bound = "2 parallel environments (any subset of them finishing an episode at each step)"
+        out.append(vec_task("ppo.collect_trajectories[SAME_STEP autoreset,logger]", PPO + "collect_trajectories", kinds, with_logger(ppo_collect_build), PPO_STUBS,
+                            cuts[:1], ppo_collect_post, mode="SAME_STEP", setup_extra=ppo_setup, n_envs=2, wrapped=True, bounded=bound))
+        out.append(vec_task("train_ppo[SAME_STEP autoreset,logger]", PPO + "train_ppo", kinds, with_logger(ppo_train_build), PPO_STUBS,
+                            cuts, ppo_train_post, mode="SAME_STEP", setup_extra=ppo_setup, n_envs=2, wrapped=True, bounded=bound))
     return out
 
 
@@ -1188,7 +1213,8 @@ ASSUMPTIONS = [
     "the real class is checked against that contract in the bounded task `EpisodeDataset`",
     "vector environments: everything the loop handles is one batched payload per step; per-environment episode state is ghost; the statistics-logging block of "
     "a2c.collect_trajectories is executed with one representative finished episode (it touches nothing the obligations mention)",
-    "ppo.collect_trajectories / train_ppo are verified with logger=None (with a logger the bootstrap observation of finished sub-environments is patched per environment index: C07, 2 environments)",
+    "ppo.collect_trajectories / train_ppo: symbolic number of environments with logger=None; with a logger and episode statistics in `info` (the routine then patches `obs` with the "
+    "final observation of finished sub-environments for the critic's bootstrap value) as bounded tasks with 2 environments; `payload.at[i].set(x)` is an uninterpreted function of its arguments",
     "train_cmaes: the optimiser state (CMAESConfig / CMAESState / Population) is opaque; only the generation counter and n_samples_per_update >= 1 are read by the loop",
 ]
 NOT_COVERED = [
@@ -1198,7 +1224,7 @@ NOT_COVERED = [
 ]
 REPLAY = {p: "loops_extra_native" for p in (
     "train_q_learning", "train_sarsa", "train_double_q_learning", "train_monte_carlo", "train_dynaq", "generate_rollout",
-    "sample_trajectories", "train_reinforce", "train_ac", "a2c.collect_trajectories", "train_a2c")}
+    "sample_trajectories", "train_reinforce", "train_ac", "a2c.collect_trajectories", "train_a2c", "ppo.collect_trajectories", "train_ppo")}
 
 
 def extra_tasks(kinds, names=None):
